@@ -405,6 +405,7 @@ def r17_single_from_breaktie(ctx):
     R = 'R17'
     d = deriv(ctx)
     n = 0
+    nb = 0
     for ri in rules(ctx):
         for f in all_funcs_of(ri.count):
             if f is ri.helper(ctx, 'breakTie'):
@@ -417,7 +418,27 @@ def r17_single_from_breaktie(ctx):
                 loop, _ = d.for_binding(recv)
                 comp, g = d.comp_binding(recv)
                 if loop is not None or g is not None:
-                    continue        # a member of a batch / sweep (R01, R03, R18)
+                    # a member of a batch / sweep (R01, R03, R18).  Neutrality: the batch is not cut out of a list by POSITION
+                    # unless that list is ordered by tally (a slice of the id-ordered selection picks candidates by their number)
+                    btn_ = ri.helper(ctx, 'breakTie')
+                    for s_ in d.sources(recv, f):
+                        if btn_ is not None and btn_.name in s_.via:
+                            continue
+                        ordered = isinstance(s_.origin, ast.Call) and any(k.arg == 'order' and const_str(k.value) == 'vote' for k in s_.origin.keywords)
+                        badop = None
+                        for op_ in s_.ops:
+                            if op_.startswith('byVote'):
+                                ordered = True
+                            elif op_.startswith(('byBallotOrder', 'byTieOrder', 'sorted', 'reversed')):
+                                ordered = ordered and op_ == 'reversed'
+                            elif op_ in ('slice', 'idx', 'pop', 'next') and not ordered:
+                                badop = op_
+                        nb += 1
+                        ctx.check(badop is None, R, call, f, 'the members of a batch are not chosen by their position in candidate (ballot-paper / id) order',
+                                  'derivation of `%s`: %s' % (recv.id, '/'.join(s_.ops) or 'a status selection, unsliced'),
+                                  '`%s` comes from a %s of a list that is not ordered by tally: which candidates are %sed depends on their numbering, '
+                                  'not on the votes or the declared tie order' % (recv.id, badop, call.func.attr), nontrivial=False)
+                    continue
                 n += 1
                 srcs = d.sources(recv, f)
                 btn = ri.helper(ctx, 'breakTie').name
@@ -449,6 +470,28 @@ def _is_total_pending_surplus(ctx, F, e):
         and ctx.canon(el.right, F) == 'E.quota' and ctx.canon(e.args[1], F) == 'E.V0'
 
 
+def _whole_tally_term(ctx, f, v):
+    """zero, or sum(b.vote for b in E.ballots if b.topCand.<attr>) with exactly that one condition"""
+    if v is None:
+        return False, 'is not a single definition'
+    if isinstance(v, ast.Constant) and v.value == 0:
+        return True, 'zero'
+    if ctx.canon(v, f) == 'E.V0':
+        return True, 'zero'
+    if isinstance(v, ast.Call) and isinstance(v.func, ast.Name) and v.func.id == 'sum' and v.args:
+        g = v.args[0]
+        if isinstance(g, (ast.GeneratorExp, ast.ListComp)) and len(g.generators) == 1:
+            gen = g.generators[0]
+            if ctx.canon(gen.iter, f) in ('E.ballots',) and isinstance(gen.target, ast.Name):
+                b = gen.target.id
+                if unparse(g.elt) != '%s.vote' % b:
+                    return False, 'sums `%s`, not the ballots\' values' % unparse(g.elt)
+                if len(gen.ifs) == 1 and isinstance(gen.ifs[0], ast.Attribute) and unparse(gen.ifs[0].value) == '%s.topCand' % b:
+                    return True, 'sum of b.vote over the ballots with b.topCand.%s' % gen.ifs[0].attr
+                return False, 'is narrowed by the condition `%s`' % ' and '.join(unparse(i_) for i_ in gen.ifs)
+    return False, 'is of an unrecognised form'
+
+
 def _check_surplus_is_total(ctx, R, ri, F, sname='surplus'):
     """the `surplus` used by a sure-loser test is all the untransferred surplus: the sum over the pending
     candidates of (tally - quota), or (parameter) an argument that contains E.surplus as an additive term"""
@@ -472,6 +515,26 @@ def _check_surplus_is_total(ctx, R, ri, F, sname='surplus'):
                 flat(a)
             if not any(ctx.canon(t, caller) == 'E.surplus' for t in terms):
                 ok = False
+            # the other terms: votes of candidates excluded alongside the batch (mpls: the undeclared write-ins).  Such a term
+            # must be the WHOLE tally standing to those candidates: sum of b.vote over the ballots whose top candidate has the
+            # attribute that selects them - any further condition leaves out votes that can still reach the remaining candidates
+            ccfg = cfg_of(caller)
+            for t in terms:
+                if ctx.canon(t, caller) == 'E.surplus':
+                    continue
+                vals = [t]
+                if isinstance(t, ast.Name):
+                    at_ = cfg_node_of(ctx, caller, c)
+                    rds = reaching_defs(ccfg, t.id, at_)
+                    vals = [d_.ast.value for d_ in rds if d_ is not ccfg.entry and isinstance(d_.ast, ast.Assign)]
+                    if len(vals) != len(rds):
+                        vals = [None]
+                for v_ in vals:
+                    okt, why = _whole_tally_term(ctx, caller, v_)
+                    ctx.check(okt, R, v_ if v_ is not None else c, caller,
+                              'a term added to the surplus handed to the sure-loser test covers every vote standing to the candidates it is about',
+                              why, 'the bound `%s` handed to %s() %s: candidates that those votes could still lift are treated as sure losers'
+                              % (unparse(v_) if v_ is not None else unparse(t), F.name, why))
         ctx.check(ok, R, F.node, F, what, '%s(surplus) is called with E.surplus (the total over all elected candidates, R12) as a term' % F.name,
                   '%s() is not given E.surplus' % F.name)
         return
